@@ -26,7 +26,8 @@ ASSUMPTIONS = [
     'documented order of the coefficients: selected pairs unique and sorted by (parameter, dimension), covariate-minor',
     'distributional agreement of sampling is decided under C06; here only shapes and point-mass models']
 REQUIRED = ['kind:gauss', 'kind:lognorm', 'kind:trunc', 'kind:pooled', 'kind:hetero', 'sel:default', 'sel:explicit',
-            'sel:unsorted', 'sel:dup', 'zero_cov', 'zero_beta', 'oor', 'direct', 'int_theta', 'dims_named_after_selection', 'covariates_named_late', 'late_n_ids']
+            'sel:unsorted', 'sel:dup', 'zero_cov', 'zero_beta', 'oor', 'direct', 'int_theta', 'dims_named_after_selection', 'covariates_named_late', 'late_n_ids',
+            'covariates_named_at_construction:unsorted']
 
 
 def _theta_for(draw, spec, n_ids, cov):
@@ -264,6 +265,31 @@ def check(case):
                           'exclude_dim_names=True (all names: %r)' % (j, cn[c], nm, nx), kind='names')
         case.equal(tuple(int(v) for v in m.n_hierarchical_parameters(n_ids)),
                    (int(und.n_hierarchical_parameters(n_ids)[0]), nb + len(sel) * n_cov), 'n_hierarchical_parameters')
+
+    with case.clause('names_at_construction'):
+        # covariate names handed over at construction keep the order they were given in (the order of the columns of
+        # the covariate matrix), whatever their alphabetical order
+        given = ['Weight', 'Age', 'Sex', 'Dose group', 'BMI'][:n_cov] if n_cov <= 5 else \
+            ['z%d' % (n_cov - c) for c in range(n_cov)]
+        lmn = chi.LinearCovariateModel(n_cov=n_cov, cov_names=list(given))
+        case.equal(list(lmn.get_covariate_names()), given, 'covariate names given at construction')
+        b0 = ref.build_pop(base, None, n_ids)
+        b0.set_n_ids(n_ids)
+        bn0 = list(b0.get_parameter_names())
+        mn = chi.CovariatePopulationModel(b0, lmn)
+        mn.set_n_ids(n_ids)
+        if pop['sel'] is not None:
+            mn.set_population_parameters([list(p) for p in pop['sel']])
+        case.equal(list(mn.get_covariate_names()), given, 'covariate names of the population model')
+        case.equal(list(mn.get_parameter_names()),
+                   list(bn0) + ['%s %s' % (bn0[p * n_dim + d], given[c]) for (p, d) in sel for c in range(n_cov)],
+                   'names with covariate names given at construction')
+        got = np.asarray(mn.compute_individual_parameters(theta.copy(), popgen.x_from_z(pop, n_ids, theta, s['z'], cov),
+                                                          cov.copy()), dtype=float)
+        case.close(got, np.real(ref.pop_indiv(pop, n_ids, theta, popgen.x_from_z(pop, n_ids, theta, s['z'], cov), cov)),
+                   rtol=1e-12, what='individual parameters, covariates named at construction')
+        if n_cov >= 2:
+            case.labels.append('covariates_named_at_construction:unsorted')
 
     if s['direct']:
         with case.clause('linear_covariate_model'):
